@@ -19,7 +19,7 @@ def main():
         return mod.replay(rep, data)
     proof = {'obligations': 1, 'discharged': 0, 'checker_cmd': 'skipped', 'trusted_base': []}
     if not a.no_proof:
-        proof = proof_stage(rep, prop, a.tier == 'thorough')
+        proof = proof_stage(rep, prop, a.tier == 'thorough', getattr(mod, 'EXTRA_PROPS', None))
     try:
         mod.run(rep, a.tier, seed)
     except Exception:
